@@ -1,0 +1,7 @@
+//go:build !verif
+
+package tubes
+
+// verifYield marks a point between two atomic actions; it compiles to nothing
+// unless the module is built with the "verif" tag (see zz_yield_verif.go).
+func verifYield(string) {}
